@@ -27,19 +27,12 @@ Definition parse_tokens (v : N) (m : mode) (start_rule : N) (toks : list Token) 
   | None => Engine.PErr PIndex
   end.
 
-Definition block_zero (t : Token) : bool :=
-  match ty t with
-  | INDENT | DEDENT => match tpre t, ts t with [], [] => true | _, _ => false end
-  | _ => true end.
-
 Inductive outcome := OTree (t : tree) | OTokErr (e : Tok.err) | OParseErr (e : Engine.perr).
 
 Definition parse_text (v : N) (m : mode) (start_rule : N) (s : str) : outcome :=
   match tokenize_text v s with
   | Tok.Err e => OTokErr e
   | Tok.Ok toks =>
-    (* guard: INDENT / DEDENT tokens are zero-width (they are created with empty string and prefix) *)
-    if negb (forallb block_zero toks) then OTokErr Guard else
     match parse_tokens v m start_rule toks with
     | Engine.POk t => OTree t
     | Engine.PErr e => OParseErr e
